@@ -1694,38 +1694,48 @@ class PyCdlib:
                                        self.eltorito_boot_catalog.validation_entry.platform_id)
 
             num_seen_efi = 0
+            seen_entries = set()  # type: Set[int]
             for enc in enc_to_update:
-                if id(enc.entry.inode) in linked_inodes:
+                if id(enc.entry) in seen_entries:
+                    # The same entry again, under another name of its file.
                     continue
+                seen_entries.add(id(enc.entry))
 
-                enc.entry.set_data_location(current_extent,
-                                            current_extent - part_start)
+                # Several entries may boot the same file; it is placed once.
+                placed = id(enc.entry.inode) in linked_inodes
+                if placed:
+                    entry_extent = enc.entry.inode.extent_location()
+                else:
+                    entry_extent = current_extent
+                    enc.entry.set_data_location(current_extent,
+                                                current_extent - part_start)
 
                 if self.isohybrid_mbr is not None:
                     if enc.entry is self.eltorito_boot_catalog.initial_entry:
                         # The hybrid MBR boots the image of the Initial/Default
                         # Entry (the one add_isohybrid() checked).
-                        self.isohybrid_mbr.update_rba(current_extent)
+                        self.isohybrid_mbr.update_rba(entry_extent)
 
                     if enc.platform_id == 0xef:
                         # EFI images only matter to a hybrid that was made
                         # with EFI (and Mac) support.
                         if num_seen_efi == 0:
                             if self.isohybrid_mbr.efi:
-                                self.isohybrid_mbr.update_efi(current_extent,
+                                self.isohybrid_mbr.update_efi(entry_extent,
                                                               enc.entry.sector_count,
                                                               self.pvd.space_size * self.logical_block_size)
                         elif num_seen_efi == 1:
                             if self.isohybrid_mbr.mac:
-                                self.isohybrid_mbr.update_mac(current_extent,
+                                self.isohybrid_mbr.update_mac(entry_extent,
                                                               enc.entry.sector_count)
                         elif self.isohybrid_mbr.efi:
                             raise pycdlibexception.PyCdlibInternalError('Only expected two EFI sections')
                         num_seen_efi += 1
 
-                current_extent = self._set_inode(enc.entry.inode, current_extent,
-                                                 part_start)
-                linked_inodes.add(id(enc.entry.inode))
+                if not placed:
+                    current_extent = self._set_inode(enc.entry.inode, current_extent,
+                                                     part_start)
+                    linked_inodes.add(id(enc.entry.inode))
 
         for ino in pvd_files + joliet_files + udf_files:
             if id(ino) in linked_inodes:
